@@ -3,6 +3,7 @@ import FloVerif.Driver.C05
 import FloVerif.Gen.CurveClip
 import FloVerif.Model.CurveClip
 import FloVerif.Gen.Overlaps
+import FloVerif.Gen.LinearFallback
 /-!
 Correspondence for C02: the generated `curve_intersects_curve_clip` (the whole recursion, `Gen.CurveClip` + the knot in
 `Model.CurveClip`) run at `Float` against the real function, bit for bit.
@@ -154,6 +155,51 @@ def handle (op : String) (ins outs : List String) : List Out :=
       | none => "none"
       | some r => s!"some (({r.t0.t0}, {r.t0.t1}), ({r.t1.t0}, {r.t1.t1}))"
     [{ field := "overlapping_region", cmp := if ok then .same 0 else .diff s!"model {show_} impl some={implSome} {impl}", fbit := some ok }]
+  | "lin" =>
+    -- ins: curve1(8) curve2(8) t_min t_max (linear section of curve 1) t_min t_max (curved section of curve 2) accuracy poly(4) #k raw[k]
+    --      #h then per ray hit: pos(2) #nx roots_x #ny roots_y; outs: #m (linear_t, curved_t)*.
+    -- `intersections_with_linear_section` (generated; the real one through hook H6), the external solver's roots of this very call
+    -- (hook H3) and the `solve_basis_for_t` answers per hit from the tables, bit for bit
+    let pt (i : Nat) : V2 Float := ⟨hexF (ins.getD (2*i) "0"), hexF (ins.getD (2*i+1) "0")⟩
+    let f (i : Nat) : Float := hexF (ins.getD i "0")
+    let linS := section_new (f 16) (f 17)
+    let curS := section_new (f 18) (f 19)
+    let acc := f 20
+    let poly : T4 Float Float Float Float := ⟨f 21, f 22, f 23, f 24⟩
+    let k := parseNat (ins.getD 25 "#0")
+    let raw := ((ins.drop 26).take k).map hexF
+    let rest := ins.drop (26 + k)
+    let h := parseNat (rest.headD "#0")
+    let rec tables : Nat → List String → List (UInt64 × UInt64 × List Float × List Float)
+      | 0, _ => []
+      | n + 1, l =>
+        let px := parseHex (l.getD 0 "0")
+        let py := parseHex (l.getD 1 "0")
+        let nx := parseNat (l.getD 2 "#0")
+        let rx := ((l.drop 3).take nx).map hexF
+        let ny := parseNat (l.getD (3 + nx) "#0")
+        let ry := ((l.drop (4 + nx)).take ny).map hexF
+        (px, py, rx, ry) :: tables n (l.drop (4 + nx + ny))
+    let tb := tables h (rest.drop 1)
+    let l1 := section_start_point (pt 0) (pt 1) (pt 2) (pt 3) linS
+    let lcp := section_control_points (pt 0) (pt 1) (pt 2) (pt 3) linS
+    let l4 := section_end_point (pt 0) (pt 1) (pt 2) (pt 3) linS
+    let same4 (w1 w2 w3 w4 a b c d : Float) : Bool := w1.toBits == a.toBits && w2.toBits == b.toBits && w3.toBits == c.toBits && w4.toBits == d.toBits
+    let solveBasis (w1 w2 w3 w4 p : Float) : List Float :=
+      if same4 w1 w2 w3 w4 l1.x lcp.t0.x lcp.t1.x l4.x then
+        match tb.find? (fun e => e.1 == p.toBits) with
+        | some e => e.2.2.1
+        | none => if same4 w1 w2 w3 w4 l1.y lcp.t0.y lcp.t1.y l4.y then (match tb.find? (fun e => e.2.1 == p.toBits) with | some e => e.2.2.2 | none => [nan]) else [nan]
+      else if same4 w1 w2 w3 w4 l1.y lcp.t0.y lcp.t1.y l4.y then
+        match tb.find? (fun e => e.2.1 == p.toBits) with
+        | some e => e.2.2.2
+        | none => [nan]
+      else [nan]
+    let solveRoots (p : T4 Float Float Float Float) : List Float :=
+      if same4 p.t0 p.t1 p.t2 p.t3 poly.t0 poly.t1 poly.t2 poly.t3 || (p.t0.isNaN && poly.t0.isNaN) then raw else [nan]
+    let model := intersections_with_linear_section solveRoots solveBasis (pt 0) (pt 1) (pt 2) (pt 3) (pt 4) (pt 5) (pt 6) (pt 7) linS curS acc
+    let impl := pairs (parseNat (outs.headD "#0")) (outs.drop 1)
+    cmpHits "lin" model impl
   | _ => [{ field := "unknown-op " ++ op, cmp := .diff "driver does not know this operation", fbit := none }]
 
 end Driver.C02
